@@ -10,11 +10,17 @@
        content, meta) so that TLC's simulation mode picks kinds and content classes evenly; KindSeq may repeat a kind (its
        weight under simulation); Finish declares the tree complete (phase "done": Emit_TreeGen prints it exactly once).
        A directory may be a mount point (mnt = 1, at most MaxMounts): it and everything below live on another device.
+       A node of kind "hard" is one more name of an EARLIER node of any kind in LinkKinds (every non-directory kind the host
+       can hard-link: regular file, symlink, character / block device, fifo, socket), in the same or in another directory of
+       the same device: the hard-link groups of the universe range over every file type the property lists.
    (2) The property-level statement Expect(t): what an exact copy of t looks like (one image inode per source inode,
        hard-link groups = source inodes, all non-type mode bits, owner, mtime, size, holes, xattrs, link targets).
    (3) The implementation-shaped model PopModel(t, src, cfg): misc/create_inode.c:__populate_fs() -- nodes are visited in
-       order, a non-directory non-symlink with st_nlink > 1 is looked up in the table `hdlinks` by (st_dev, st_ino),
-       a hit becomes add_link() to the recorded inode, a miss creates the inode and records it; set_inode_extra()
+       order, a name whose file type is in PopLinkTypes and whose st_nlink > 1 is looked up in the table `hdlinks` by
+       (st_dev, st_ino), a hit becomes add_link() to the recorded inode, a miss creates the inode and records it.
+       PopLinkTypes = NonDirKinds is what the property needs (same image inode <=> same (st_dev, st_ino) on the host, for
+       every non-directory type); LiteralLinkTypes is what the pinned create_inode.c does (it leaves symlinks out:
+       named deviation DevSymlinkLinksSplit).  set_inode_extra()
        copies owner, all non-type mode bits and the times; copy_file() copies only SEEK_DATA ranges rounded out to
        filesystem blocks.  Extraction RdumpModel(): debugfs/dump.c rdump_inode() -- regular files, directories and
        symlinks only, permission bits through mode_xlate (rwx only), owner through fchown/chown.
@@ -24,6 +30,8 @@
 EXTENDS Integers, Sequences, FiniteSets, TLC
 
 CONSTANTS MinNodes, MaxNodes, MaxDepth, MaxFan, MaxMounts,
+          LinkKinds,               \* the kinds a "hard" node may name (a subset of NonDirKinds: what the host can hard-link)
+          PopLinkTypes,            \* the file types for which __populate_fs consults / fills the hdlinks table
           KindSeq, NameClasses, SizeClasses, TargetClasses, DevClasses, ModeClasses, OwnerClasses, MtimeClasses, XattrClasses,
           DevModeMask777,          \* set_inode_extra keeps only st_mode & 0777 (setuid/setgid/sticky lost)
           DevHardlinkByInoOnly,    \* is_hardlink() compares st_ino only
@@ -36,6 +44,10 @@ VARIABLES tree, phase, cur, goal
 vars == <<tree, phase, cur, goal>>
 
 AllKinds == {"dir", "reg", "lnk", "chr", "blk", "fifo", "sock", "hard"}
+NonDirKinds == {"reg", "lnk", "chr", "blk", "fifo", "sock"}            \* the file types that can have several names
+\* misc/create_inode.c:__populate_fs() as pinned: `!S_ISDIR && !S_ISLNK && st_nlink > 1` -- hard-linked symlinks are never looked up
+LiteralLinkTypes == NonDirKinds \ {"lnk"}
+ASSUME LinkKinds \subseteq NonDirKinds /\ PopLinkTypes \subseteq NonDirKinds
 
 \* ------------------------------------------------------------------------------------------------- value catalogues
 Plain(n) == [size |-> n, data |-> IF n = 0 THEN <<>> ELSE << <<0, n>> >>, holes |-> <<>>]
@@ -69,7 +81,6 @@ TargetLen == [ t1 |-> 1, t59 |-> 59, t60 |-> 60, t61 |-> 61, t255 |-> 255, t1023
 DevOf     == [ dev_small |-> <<1, 3>>, dev_large |-> <<300, 1000>>, dev_zero |-> <<0, 0>> ]
 NameLen   == [ n1 |-> 1, n8 |-> 8, n64 |-> 64, n255 |-> 255 ]
 
-TypeOf(k) == IF k = "hard" THEN "reg" ELSE k
 Blank == [kind |-> "-", parent |-> 0, link |-> 0, mnt |-> 0, content |-> "-"]
 
 \* ------------------------------------------------------------------------------------------------- tree structure
@@ -79,6 +90,7 @@ DepthOf(t, i) == IF i = 0 THEN 0 ELSE 1 + DepthOf(t, t[i].parent)
 Children(t, p) == {i \in Ids(t) : t[i].parent = p}
 DirIds(t) == {i \in Ids(t) : t[i].kind = "dir"}
 RegIds(t) == {i \in Ids(t) : t[i].kind = "reg"}
+LinkableIds(t) == {i \in Ids(t) : t[i].kind \in LinkKinds}          \* what a later "hard" node may name
 \* device of a node: a directory with mnt = 1 is a mount point (it and everything below live on a new device named by its id)
 RECURSIVE DevId(_, _)
 DevId(t, i) == IF i = 0 THEN 0 ELSE IF t[i].mnt = 1 THEN i ELSE DevId(t, t[i].parent)
@@ -91,7 +103,7 @@ TreeOK(t) ==
         /\ t[i].parent = 0 \/ (t[i].parent < i /\ t[t[i].parent].kind = "dir")
         /\ DepthOf(t, i) <= MaxDepth
         /\ (t[i].kind = "hard") = (t[i].link # 0)
-        /\ t[i].kind = "hard" => /\ t[i].link < i /\ t[t[i].link].kind = "reg"
+        /\ t[i].kind = "hard" => /\ t[i].link < i /\ t[t[i].link].kind \in LinkKinds
                                  /\ DevId(t, i) = DevId(t, t[i].link)              \* link(2) does not cross devices
         /\ t[i].mnt = 1 => t[i].kind = "dir"
    /\ \A p \in {0} \cup DirIds(t) : Cardinality(Children(t, p)) <= MaxFan
@@ -102,7 +114,7 @@ Init == tree = <<>> /\ phase = "kind" /\ cur = Blank /\ goal \in MinNodes..MaxNo
 
 PickKind == /\ phase = "kind" /\ Len(tree) < goal
             /\ \E w \in DOMAIN KindSeq :                  \* KindSeq may repeat a kind: its weight in simulation mode
-                  LET k == KindSeq[w] IN /\ (k = "hard" => RegIds(tree) # {})
+                  LET k == KindSeq[w] IN /\ (k = "hard" => LinkableIds(tree) # {})
                                          /\ cur' = [Blank EXCEPT !.kind = k]
             /\ phase' = "place" /\ UNCHANGED <<tree, goal>>
 
@@ -114,7 +126,7 @@ PickPlace == /\ phase = "place"
                         \E m \in (IF cur.kind = "dir" /\ Cardinality(Mounts(tree)) < MaxMounts THEN {0, 1} ELSE {0}) :
                            cur' = [cur EXCEPT !.parent = p, !.mnt = m]
                 \/ /\ cur.kind = "hard"
-                   /\ \E p \in Places(tree) : \E r \in RegIds(tree) :
+                   /\ \E p \in Places(tree) : \E r \in LinkableIds(tree) :
                         /\ DevId(tree, p) = DevId(tree, r)
                         /\ cur' = [cur EXCEPT !.parent = p, !.link = r]
              /\ phase' = "content" /\ UNCHANGED <<tree, goal>>
@@ -133,10 +145,10 @@ PickMeta == /\ phase = "meta"
                                         content |-> cur.content, nlen |-> nl, mode |-> mo, owner |-> ow, mtime |-> mt, xattr |-> xa])
             /\ phase' = "kind" /\ cur' = Blank /\ UNCHANGED goal
 
-\* a node that cannot be placed (every directory full or too deep; for a hard link: no room on the device of any regular file)
+\* a node that cannot be placed (every directory full or too deep; for a hard link: no room on the device of any linkable node)
 \* is dropped again
 DropKind == /\ phase = "place"
-            /\ IF cur.kind = "hard" THEN ~ \E p \in Places(tree) : \E r \in RegIds(tree) : DevId(tree, p) = DevId(tree, r)
+            /\ IF cur.kind = "hard" THEN ~ \E p \in Places(tree) : \E r \in LinkableIds(tree) : DevId(tree, p) = DevId(tree, r)
                ELSE Places(tree) = {}
             /\ phase' = "kind" /\ cur' = Blank /\ UNCHANGED <<tree, goal>>
 
@@ -154,6 +166,7 @@ InvTreeOK == TreeOK(tree)
 \* ------------------------------------------------------------------------------------------------- attribute values
 \* the node whose attributes a name carries: a hard link carries those of its target
 Src(t, i) == IF t[i].kind = "hard" THEN t[i].link ELSE i
+TypeOfNode(t, i) == t[Src(t, i)].kind                                 \* the file type lstat reports for name i
 ModeOfNode(n) == IF n.kind = "lnk" THEN 511 ELSE ModeBits[n.mode]          \* lstat of a symlink always reports 0777
 SizeOfNode(n) == CASE n.kind = "reg" -> SizeCat[n.content].size [] n.kind = "lnk" -> TargetLen[n.content] [] OTHER -> 0
 HolesOfNode(n) == IF n.kind = "reg" THEN SizeCat[n.content].holes ELSE <<>>
@@ -173,44 +186,52 @@ HostSrc(t) == [i \in Ids(t) |->
 \* group[i] = the set of names that must share one image inode with i
 Expect(t) == [i \in Ids(t) |->
                 LET n == t[Src(t, i)] IN
-                [type |-> TypeOf(t[i].kind), size |-> SizeOfNode(n), mode |-> ModeOfNode(n), uid |-> OwnerOf[n.owner][1], gid |-> OwnerOf[n.owner][2],
+                [type |-> TypeOfNode(t, i), size |-> SizeOfNode(n), mode |-> ModeOfNode(n), uid |-> OwnerOf[n.owner][1], gid |-> OwnerOf[n.owner][2],
                  mtime |-> MtimeOf[n.mtime], holes |-> HolesOfNode(n), rdev |-> RdevOfNode(n), xattr |-> n.xattr,
                  group |-> IF n.kind = "dir" THEN {i} ELSE {j \in Ids(t) : Src(t, j) = Src(t, i)},
                  nlink |-> IF n.kind = "dir" THEN 2 + Cardinality({j \in Children(t, i) : t[j].kind = "dir"})
                            ELSE Cardinality({j \in Ids(t) : Src(t, j) = Src(t, i)})]]
 
 \* ------------------------------------------------------------------------------------------------- (3) __populate_fs
-RECURSIVE Pop(_, _, _, _, _)
-Pop(t, src, i, st, inoOnly) ==
+RECURSIVE Pop(_, _, _, _, _, _)
+Pop(t, src, i, st, inoOnly, linkTypes) ==
    IF i > Len(t) THEN st
-   ELSE LET n == t[i]
-            multi == TypeOf(n.kind) \notin {"dir", "lnk"} /\ src[i].nlink > 1
+   ELSE LET multi == TypeOfNode(t, i) \in linkTypes /\ src[i].nlink > 1
             hits == {k \in DOMAIN st.hd : st.hd[k].ino = src[i].ino /\ (inoOnly \/ st.hd[k].dev = src[i].dev)}
         IN IF multi /\ hits # {}
            THEN LET first == CHOOSE k \in hits : \A k2 \in hits : k <= k2
-                IN Pop(t, src, i + 1, [st EXCEPT !.dst = @ @@ (i :> st.hd[first].dst)], inoOnly)                 \* add_link()
+                IN Pop(t, src, i + 1, [st EXCEPT !.dst = @ @@ (i :> st.hd[first].dst)], inoOnly, linkTypes)      \* add_link()
            ELSE Pop(t, src, i + 1, [hd |-> IF multi THEN Append(st.hd, [dev |-> src[i].dev, ino |-> src[i].ino, dst |-> st.next]) ELSE st.hd,
                                     next |-> st.next + 1, dst |-> st.dst @@ (i :> st.next),
-                                    creator |-> st.creator @@ (st.next :> i)], inoOnly)
+                                    creator |-> st.creator @@ (st.next :> i)], inoOnly, linkTypes)
 
 PopInit == [hd |-> <<>>, next |-> 12, dst |-> <<>>, creator |-> <<>>]
-PopRun(t, src) == Pop(t, src, 1, PopInit, DevHardlinkByInoOnly)
+PopRun(t, src, linkTypes) == Pop(t, src, 1, PopInit, DevHardlinkByInoOnly, linkTypes)
 \* trees on which the device half of the hdlinks key matters (two link groups with equal inode numbers on two devices)
-LinkSensitive(t) == Pop(t, HostSrc(t), 1, PopInit, TRUE).dst # Pop(t, HostSrc(t), 1, PopInit, FALSE).dst
+LinkSensitive(t) == Pop(t, HostSrc(t), 1, PopInit, TRUE, NonDirKinds).dst # Pop(t, HostSrc(t), 1, PopInit, FALSE, NonDirKinds).dst
+\* link groups by file type: the kinds that have a group inside one directory / a group spread over several directories
+GroupOf(t, i) == {j \in Ids(t) : Src(t, j) = Src(t, i)}
+Linked(t) == {i \in Ids(t) : t[i].kind # "dir" /\ Cardinality(GroupOf(t, i)) > 1}
+KindsLinkedWithin(t) == {TypeOfNode(t, i) : i \in {k \in Linked(t) : \E j \in GroupOf(t, k) \ {k} : t[j].parent = t[k].parent}}
+KindsLinkedAcross(t) == {TypeOfNode(t, i) : i \in {k \in Linked(t) : \E j \in GroupOf(t, k) : t[j].parent # t[k].parent}}
+\* the link-shape trees: nothing but link groups (every non-directory name has at least one other name) and the directories that hold them
+LinkShape(t) == Linked(t) # {} /\ \A i \in Ids(t) : IF t[i].kind = "dir" THEN Children(t, i) # {} ELSE i \in Linked(t)
 
 \* the image after population: per name, the image inode number and that inode's attributes (those of the name that created it)
-PopModel(t, src) ==
-   LET run == PopRun(t, src) IN
+PopModelWith(t, src, linkTypes) ==
+   LET run == PopRun(t, src, linkTypes) IN
    [i \in Ids(t) |->
       LET c == run.creator[run.dst[i]]      \* the name whose lstat data went into the inode
           n == t[Src(t, c)]
           bits == ModeOfNode(n)
-      IN [ino |-> run.dst[i], type |-> TypeOf(t[c].kind), size |-> SizeOfNode(n),
+      IN [ino |-> run.dst[i], type |-> TypeOfNode(t, c), size |-> SizeOfNode(n),
           mode |-> IF DevModeMask777 THEN bits % 512 ELSE bits,
           uid |-> OwnerOf[n.owner][1], gid |-> OwnerOf[n.owner][2], mtime |-> MtimeOf[n.mtime],
           holes |-> IF DevHoleAsZeros THEN <<>> ELSE HolesOfNode(n), rdev |-> RdevOfNode(n), xattr |-> n.xattr,
           nlink |-> IF t[c].kind = "dir" THEN 2 + Cardinality({j \in Children(t, c) : t[j].kind = "dir"})
                     ELSE Cardinality({j \in Ids(t) : run.dst[j] = run.dst[i]})]]
+
+PopModel(t, src) == PopModelWith(t, src, PopLinkTypes)
 
 Attrs(r) == [type |-> r.type, size |-> r.size, mode |-> r.mode, uid |-> r.uid, gid |-> r.gid, mtime |-> r.mtime, holes |-> r.holes,
              rdev |-> r.rdev, xattr |-> r.xattr, nlink |-> r.nlink]
